@@ -606,6 +606,26 @@ def _structural(ctx) -> None:
                message=f"{q}: a result (line {getattr(unrecognised[0].node, 'lineno', 0) if unrecognised else 0}) is reachable for a mapping operand "
                        f"without the mapping being recognised: vector >> {{'p': [..]}} / table >> MappingProxyType(..) store the KEYS as one "
                        f"column and drop the values")
+    # ... and what the mapping gives for ONE new column is a sequence of cells: a string, a number or (again) a mapping as the values
+    # of a column is refused - no `Vector(values)` is reachable for it (iterated, a string gives its characters, a mapping its KEYS)
+    for q in ("table.Table.__rshift__",):
+        g = prog.functions.get(q)
+        if g is None:
+            continue
+        gi = interp_of(prog, g)
+        O = ("param", g.params[1])
+        n_conv, taken_apart = 0, []
+        for e in gi.events:
+            if e.kind == "call" and e.term[1] == ("name", "Vector") and len(e.term[2]) == 1 and e.term[2][0][0] == "val" and e.term[2][0][1] == O:
+                n_conv += 1
+                for kind in ("str", "Mapping"):
+                    if not any(kind_truth(t, e.term[2][0], kind) is (not pol) for t, pol in flatten_conds(e.conds)):
+                        taken_apart.append((kind, e))
+        ctx.ob("e.structural-ops", g, "mapping-column-values", n_conv >= 1 and not taken_apart,
+               f"{n_conv} conversion(s) of a mapping's value to a column, none reachable for a string or a mapping", (taken_apart[0][1].node if taken_apart else g.node),
+               message=f"{q}: `Vector(values)` (line {getattr(taken_apart[0][1].node, 'lineno', 0) if taken_apart else 0}) is reachable for a "
+                       f"{' / '.join(sorted({k_ for k_, _ in taken_apart}))} given as the values of a new column: t >> {{'c': {{'p': 1, 'q': 2}}}} "
+                       f"appends a column holding 'p', 'q' - the inner mapping's KEYS")
     # Vector.__lshift__ (the per-column append): a string is ONE cell, never a sequence of cells
     vl = prog.func("vector.Vector.__lshift__")
     it = interp_of(prog, vl)
@@ -837,6 +857,10 @@ def _structural(ctx) -> None:
 
 _T, _V = "table", "vector"
 MUTANTS = [
+    dict(id="inner-mapping-keys-as-column", module="table",
+         old="				elif isinstance(values, Iterable) and not isinstance(values, (str, bytes, bytearray, int, float, complex, Enum, Mapping)):",
+         new="				elif isinstance(values, Iterable) and not isinstance(values, (str, bytes, bytearray, int, float, complex, Enum)):",
+         rules=["e.structural-ops"], desc="reverts fix c8aa601"),
     dict(id="rshift-only-dicts-are-mappings", module="table", old="		if isinstance(other, Mapping):\n			# Convert dict to named Vectors",
          new="		if isinstance(other, dict):\n			# Convert dict to named Vectors", rules=["e.structural-ops"], desc="reverts fix 0894df3 (table)"),
     dict(id="vector-rshift-mapping-keys", module="vector", old="		if isinstance(other, Mapping):\n			# {name: values, ...}: named columns after this one",
